@@ -796,7 +796,9 @@ func lineBoxLayout(context *layoutContext, box_ Box, index int, child_ *bo.LineB
 								context, box, line_, &newChildren, linesIterator, pageIsEmpty,
 								index, skipStack, resumeAt, absoluteBoxes, fixedBoxes)
 							breakLinebox = true
-						} else if footnote.Box().Style.GetFootnotePolicy() == "block" {
+						} else if footnote.Box().Style.GetFootnotePolicy() == "block" && !pageIsEmpty {
+							// if the block already starts the page, moving it again to
+							// the next one would not help (and never end)
 							abort, breakLinebox = true, true
 						}
 						break
